@@ -22,16 +22,18 @@ view == <<tbl, ever, hasIndex, nextKey, steps, last>>
 
 Grid == {<<x, y>> : x \in -2..2, y \in -2..2}
 
-PoolVec ==
-  CASE PoolId = 1 -> << <<0, 0>>, <<1, 0>>, <<1, 0>>, <<-1, 2>>, <<2, 2>>, <<0, -2>>, <<-2, -1>>, <<0, 0>> >>
-    [] PoolId = 2 -> << <<2, -2>>, <<0, 0>>, <<-2, 2>>, <<1, 1>>, <<1, 1>>, <<-1, -1>>, <<0, 1>>, <<2, -2>> >>
-    [] PoolId = 3 -> << <<1, 0>>, <<2, 0>>, <<-1, 0>>, <<0, 2>>, <<1, 1>>, <<2, 2>>, <<-2, 1>>, <<1, -2>> >>
-    [] PoolId = 4 -> << <<-1, 1>>, <<-1, 1>>, <<-1, 1>>, <<2, 1>>, <<1, 2>>, <<-2, -2>>, <<1, -1>>, <<-1, 1>> >>
-PoolVal ==
-  CASE PoolId = 1 -> <<1, NULL, 2, 1, 0, NULL, 2, 1>>
-    [] PoolId = 2 -> <<0, 1, 1, NULL, 2, 0, NULL, 1>>
-    [] PoolId = 3 -> <<2, 2, NULL, 1, 0, 1, NULL, 0>>
-    [] PoolId = 4 -> <<NULL, 1, 0, 2, 1, 1, 0, NULL>>
+PoolVecOf(p) ==
+  CASE p = 1 -> << <<0, 0>>, <<1, 0>>, <<1, 0>>, <<-1, 2>>, <<2, 2>>, <<0, -2>>, <<-2, -1>>, <<0, 0>> >>
+    [] p = 2 -> << <<2, -2>>, <<0, 0>>, <<-2, 2>>, <<1, 1>>, <<1, 1>>, <<-1, -1>>, <<0, 1>>, <<2, -2>> >>
+    [] p = 3 -> << <<1, 0>>, <<2, 0>>, <<-1, 0>>, <<0, 2>>, <<1, 1>>, <<2, 2>>, <<-2, 1>>, <<1, -2>> >>
+    [] p = 4 -> << <<-1, 1>>, <<-1, 1>>, <<-1, 1>>, <<2, 1>>, <<1, 2>>, <<-2, -2>>, <<1, -1>>, <<-1, 1>> >>
+PoolValOf(p) ==
+  CASE p = 1 -> <<1, NULL, 2, 1, 0, NULL, 2, 1>>
+    [] p = 2 -> <<0, 1, 1, NULL, 2, 0, NULL, 1>>
+    [] p = 3 -> <<2, 2, NULL, 1, 0, 1, NULL, 0>>
+    [] p = 4 -> <<NULL, 1, 0, 2, 1, 1, 0, NULL>>
+PoolVec == PoolVecOf(PoolId)
+PoolVal == PoolValOf(PoolId)
 Row(k, ix) == [key |-> k, vec |-> PoolVec[k], val |-> PoolVal[k], indexed |-> ix]
 \* cosine is only generated on pools without the zero vector
 ASSUME Metric = "cosine" => \A k \in 1..MaxKeys : ~IsZero(PoolVec[k])
@@ -40,14 +42,16 @@ ASSUME MaxKeys <= 8
 Filters == {<<"true">>, <<"false">>, <<"cmp", "val", "=", 1>>, <<"cmp", "val", "<>", 1>>, <<"cmp", "val", ">=", 1>>,
             <<"isnull", "val">>, <<"not", <<"cmp", "val", "=", 1>>>>, <<"in", "val", <<0, 2>>>>,
             <<"cmp", "id", "<=", 4>>}
-MkQuery(q, k, f, hf, pre, fast, ui) ==
-  [q |-> q, k |-> k, metric |-> Metric, filter |-> f, hasFilter |-> hf, prefilter |-> pre, fast |-> fast,
+MkQueryM(m, q, k, f, hf, pre, fast, ui) ==
+  [q |-> q, k |-> k, metric |-> m, filter |-> f, hasFilter |-> hf, prefilter |-> pre, fast |-> fast,
    useIndex |-> ui, exact |-> TRUE]
-QPoints == IF Metric = "cosine" THEN Grid \ {<<0, 0>>} ELSE Grid
-\* the complete query universe (replayed on the implementation, sampled per scenario)
-AllQueries ==
-  {MkQuery(q, k, <<"true">>, FALSE, TRUE, FALSE, TRUE) : q \in QPoints, k \in 1..9}
-  \cup {MkQuery(q, k, f, TRUE, TRUE, FALSE, TRUE) : q \in QPoints, k \in 1..9, f \in Filters}
+MkQuery(q, k, f, hf, pre, fast, ui) == MkQueryM(Metric, q, k, f, hf, pre, fast, ui)
+QPointsFor(m) == IF m = "cosine" THEN Grid \ {<<0, 0>>} ELSE Grid
+QPoints == QPointsFor(Metric)
+\* the complete query universe of a metric (replayed on the implementation, sampled per scenario)
+AllQueriesFor(m) ==
+  {MkQueryM(m, q, k, <<"true">>, FALSE, TRUE, FALSE, TRUE) : q \in QPointsFor(m), k \in 1..9}
+  \cup {MkQueryM(m, q, k, f, TRUE, TRUE, FALSE, TRUE) : q \in QPointsFor(m), k \in 1..9, f \in Filters}
 \* the universe used for the laws (execution flags included)
 \* (SmallMC selects a reduced universe for the quick tier)
 QPointsMC == (IF SmallMC THEN {<<1, 0>>, <<-2, 2>>} ELSE {<<0, 0>>, <<1, 0>>, <<-2, 2>>, <<1, 1>>}) \cap QPoints
@@ -168,7 +172,9 @@ VariantsIndexed ==
 VarPrint == (steps = 0 /\ Cardinality(tbl) = 3) =>
               PrintT(<<"VAR", ToJson([flat |-> SetToSeq(VariantsFlat), indexed |-> SetToSeq(VariantsIndexed)])>>)
 GenPrint == (steps = MaxSteps) => PrintT(<<"SCN", ToJson(hist)>>)
-QryPrint == (steps = 0 /\ Cardinality(tbl) = 3) => PrintT(<<"QRY", ToJson(SetToSeq(AllQueries))>>)
+QryPrint == (steps = 0 /\ Cardinality(tbl) = 3) =>
+              PrintT(<<"QRY", ToJson([l2 |-> SetToSeq(AllQueriesFor("l2")), dot |-> SetToSeq(AllQueriesFor("dot")),
+                                      cosine |-> SetToSeq(AllQueriesFor("cosine"))])>>)
 PoolPrint == (steps = 0 /\ Cardinality(tbl) = 3) =>
-               PrintT(<<"POOL", ToJson([k \in 1..MaxKeys |-> <<k, PoolVec[k][1], PoolVec[k][2], PoolVal[k]>>])>>)
+               PrintT(<<"POOL", ToJson([p \in 1..4 |-> [k \in 1..8 |-> <<k, PoolVecOf(p)[k][1], PoolVecOf(p)[k][2], PoolValOf(p)[k]>>]])>>)
 =============================================================================
